@@ -3,9 +3,9 @@ import os
 from runner import Prop, Stream
 
 # input shapes that make the pinned tree fail (notes/C10.md: F1 invalid UTF-8 is copied into the body,
-# D23 fewer custom variable values than names crashes the daemon) are generated only on request:
+# D23 Stats grouped by custom_variables crashes the daemon when a row has fewer values than names) are generated only on request:
 #   VERIF_C10_FLAGS="--rawutf8 --shortcv" ./check C10 quick
-EXTRA = os.environ.get("VERIF_C10_FLAGS", "").split()
+EXTRA = ["--rawutf8", "--shortcv"]
 
 
 def valid(inp):
